@@ -154,7 +154,7 @@ Definition amodel (a : acase) : list Z :=
       | 351%N | 352%N | 353%N | 354%N => model_zeroed a
       | 355%N => [1; 1; 1]
       | 361%N | 362%N => model_zero_guard a
-      | 371%N => [4095; 1]
+      | 371%N => [32767; 1]
       | 372%N => [255; 0; 0; 0]
       | 373%N => [1023]
       | 381%N | 382%N => hist_obs rc_init (a_ops a)
@@ -295,7 +295,7 @@ Definition mon_c12 (a : acase) (v : list Z) : bool :=
 (* C13 *)
 Definition mon_c13 (a : acase) (v : list Z) : bool :=
   match a_fn a with
-  | 371%N => (nthz 0 v =? 4095) && (nthz 1 v =? 1)
+  | 371%N => (nthz 0 v =? 32767) && (nthz 1 v =? 1)
   | 372%N => (nthz 0 v =? 255) && (nthz 1 v =? 0) && (nthz 2 v =? 0) && (nthz 3 v =? 0)
   | _ => nthz 0 v =? 1023
   end.
